@@ -27,6 +27,7 @@ import vlib
 from vlib import Ctx, l2s, s2l
 
 PROP = 'C16'
+LONG_TIMEOUT = 7200     # seconds per worker batch; only reached on an overloaded machine
 TYN = {1: 'INTEGER', 2: 'LONG', 3: 'SINGLE', 4: 'DOUBLE'}
 INF = float('inf')
 
@@ -399,7 +400,7 @@ def run_values(ctx, suite, vals, exe, model_idx=None):
     for off in range(0, len(vals), CH):
         chunk = vals[off:off + CH]
         cases = [[ty, (v if ty < 3 else fb(v)), 'full'] for _, ty, v in chunk]
-        raws = vlib.run_impl('numtextfn.roundtrip', cases)
+        raws = vlib.run_impl('numtextfn.roundtrip', cases, timeout=LONG_TIMEOUT)
         if any(isinstance(r, dict) and r.get('harness') for r in raws):
             bad = [r for r in raws if isinstance(r, dict) and r.get('harness')][0]
             ctx.broken.append(f'correspondence {suite}: implementation worker failed: '
@@ -428,7 +429,7 @@ def run_values(ctx, suite, vals, exe, model_idx=None):
             if (model_idx is None or (off + j) in model_idx) and 'text' in raw:
                 jobs.append([1, ty, c[1], raw['text'], ys])
                 jobpos.append(j)
-        mres = vlib.run_model(exe, jobs)
+        mres = vlib.run_model(exe, jobs, timeout=LONG_TIMEOUT)
         mouts = [None] * len(chunk)
         for j, mo in zip(jobpos, mres):
             mouts[j] = mo
@@ -692,7 +693,9 @@ def run_programs(ctx, tier, texts_by_value):
                     f'(PRINT x / PRINT STR$(x) / VAL(STR$(x)); INPUT of the printed text; READ of the printed '
                     f'text as a DATA item) x levels 0,1,2 x debug on/off, run on the real machine; '
                     f'the value enters via INPUT of Python repr')
-    raws = vlib.run_impl('numtextfn.run_prog', cases)
+    raws = []
+    for off in range(0, len(cases), 2400):      # batches: a worker never runs long
+        raws += vlib.run_impl('numtextfn.run_prog', cases[off:off + 2400], timeout=LONG_TIMEOUT)
     for c, raw in zip(cases, raws):
         if isinstance(raw, dict) and raw.get('harness'):
             ctx.broken.append(f'correspondence programs: implementation worker failed: '
